@@ -122,8 +122,10 @@ func (s *JavaIdentifierListener) EnterMethodDeclaration(ctx *parser.MethodDeclar
 
 	typeType := ctx.TypeTypeOrVoid().GetText()
 
-	if reflect.TypeOf(ctx.GetParent().GetParent().GetChild(0)).String() == "*parser.ModifierContext" {
-		common_listener.BuildAnnotationForMethod(ctx.GetParent().GetParent().GetChild(0).(*parser.ModifierContext), &currentMethod)
+	for _, child := range ctx.GetParent().GetParent().GetChildren() {
+		if modifier, ok := child.(*parser.ModifierContext); ok {
+			common_listener.BuildAnnotationForMethod(modifier, &currentMethod)
+		}
 	}
 
 	position := core_domain.CodePosition{
